@@ -44,6 +44,20 @@ Proof. intros H M. apply (H (fun y => M < y)). exists M. auto. Qed.
 (* ------------------------------------------------------------------------------------ *)
 (* Part A: change of variables                                                            *)
 (* ------------------------------------------------------------------------------------ *)
+Lemma is_derive_one_minus (G : R -> R) (x l : R) : is_derive G x l -> is_derive (fun t => 1 - G t) x (- l).
+Proof.
+  intros H. auto_derive; [exists l; exact H|]. change (fun x0 : R => G x0) with G. rewrite (is_derive_unique _ _ _ H). ring.
+Qed.
+
+Lemma filterlim_one_minus (G : R -> R) (F : (R -> Prop) -> Prop) {FF : Filter F} (l : R) :
+  filterlim G F (locally l) -> filterlim (fun x => 1 - G x) F (locally (1 - l)).
+Proof.
+  intros H. apply filterlim_locally. intros eps.
+  generalize (proj1 (filterlim_locally G l) H eps). apply filter_imp. intros x Hx.
+  change (Rabs (1 - G x - (1 - l)) < eps). change (Rabs (G x - l) < eps) in Hx.
+  replace (1 - G x - (1 - l)) with (- (G x - l)) by ring. now rewrite Rabs_Ropp.
+Qed.
+
 Section COV.
   (* base: CDF P with continuous density p; S = the inverse of the flow's forward map *)
   Variables (P p S S' : R -> R).
@@ -67,18 +81,20 @@ Section COV.
     - apply continuous_comp; [apply (ex_derive_continuous S); eexists; apply S_deriv | apply p_cont].
     - apply S'_cont.
   Qed.
-  Lemma int_q_gen (la lb : R) :
-    filterlim (fun x => P (S x)) (Rbar_locally m_infty) (locally la) ->
-    filterlim (fun x => P (S x)) (Rbar_locally p_infty) (locally lb) ->
-    is_RInt_gen q (Rbar_locally m_infty) (Rbar_locally p_infty) (lb - la).
+  (* fundamental theorem of calculus on the whole line for a C1 primitive *)
+  Lemma int_gen (F r : R -> R) (la lb : R) :
+    (forall x, is_derive F x (r x)) -> (forall x, continuous r x) ->
+    filterlim F (Rbar_locally m_infty) (locally la) ->
+    filterlim F (Rbar_locally p_infty) (locally lb) ->
+    is_RInt_gen r (Rbar_locally m_infty) (Rbar_locally p_infty) (lb - la).
   Proof.
-    intros Ha Hb.
-    apply (is_RInt_gen_ext (Derive (fun x => P (S x)))).
-    - apply filter_forall. intros [a b] x _. apply is_derive_unique, PS_deriv.
+    intros HF Hr Ha Hb.
+    apply (is_RInt_gen_ext (Derive F)).
+    - apply filter_forall. intros [a b] x _. apply is_derive_unique, HF.
     - apply is_RInt_gen_Derive.
-      + apply filter_forall. intros [a b] x _. eexists; apply PS_deriv.
+      + apply filter_forall. intros [a b] x _. eexists; apply HF.
       + apply filter_forall. intros [a b] x _.
-        apply continuous_ext with (f := q); [intros t; symmetry; apply is_derive_unique, PS_deriv | apply q_cont].
+        apply continuous_ext with (f := r); [intros t; symmetry; apply is_derive_unique, HF | apply Hr].
       + exact Ha.
       + exact Hb.
   Qed.
@@ -89,7 +105,8 @@ Section COV.
     filterlim S (Rbar_locally p_infty) (Rbar_locally p_infty) ->
     is_RInt_gen (fun x => p (S x) * S' x) (Rbar_locally m_infty) (Rbar_locally p_infty) 1.
   Proof.
-    intros Hm Hp. replace 1 with (1 - 0) by ring. apply int_q_gen.
+    intros Hm Hp. replace 1 with (1 - 0) by ring.
+    apply (int_gen (fun x => P (S x)) q); [apply PS_deriv | apply q_cont | |].
     - eapply filterlim_comp; [apply Hm | apply P_minf].
     - eapply filterlim_comp; [apply Hp | apply P_pinf].
   Qed.
@@ -99,15 +116,20 @@ Section COV.
     filterlim S (Rbar_locally p_infty) (Rbar_locally m_infty) ->
     is_RInt_gen (fun x => p (S x) * - S' x) (Rbar_locally m_infty) (Rbar_locally p_infty) 1.
   Proof.
-    intros Hm Hp.
-    assert (H : is_RInt_gen q (Rbar_locally m_infty) (Rbar_locally p_infty) (0 - 1)).
-    { apply int_q_gen.
-      - eapply filterlim_comp; [apply Hm | apply P_pinf].
-      - eapply filterlim_comp; [apply Hp | apply P_minf]. }
-    replace 1 with (opp (0 - 1)) by (unfold opp; cbn; ring).
-    apply (is_RInt_gen_ext (fun x => opp (q x))).
-    - apply filter_forall. intros [a b] x _. unfold q, opp; cbn. ring.
-    - apply is_RInt_gen_opp, H.
+    intros Hm Hp. replace 1 with (1 - 0) by ring.
+    apply (int_gen (fun x => 1 - P (S x)) (fun x => p (S x) * - S' x)).
+    - intros x. replace (p (S x) * - S' x) with (- q x) by (unfold q; ring).
+      apply (is_derive_one_minus (fun t => P (S t)) x (q x)), PS_deriv.
+    - intros x. apply continuous_ext with (f := fun x => - q x); [intros t; change (@eq R (- q t) (p (S t) * - S' t)); unfold q; ring|].
+      apply (continuous_opp q), q_cont.
+    - assert (E : filterlim (fun x => 1 - P (S x)) (Rbar_locally m_infty) (locally (1 - 1))).
+      { apply (filterlim_one_minus (fun x => P (S x)) (Rbar_locally m_infty) 1).
+        eapply filterlim_comp; [apply Hm | apply P_pinf]. }
+      replace (1 - 1) with 0 in E by ring. exact E.
+    - assert (E : filterlim (fun x => 1 - P (S x)) (Rbar_locally p_infty) (locally (1 - 0))).
+      { apply (filterlim_one_minus (fun x => P (S x)) (Rbar_locally p_infty) 0).
+        eapply filterlim_comp; [apply Hp | apply P_minf]. }
+      replace (1 - 0) with 1 in E by ring. exact E.
   Qed.
 End COV.
 
@@ -209,10 +231,10 @@ Section Inverse.
     assert (Hlh : lo < y < hi) by (unfold lo, hi; destruct up; lra).
     exists (Rmin (y - lo) (hi - y)). split.
     - apply Rmin_case; lra.
-    - intros t [_ Ht]. unfold dist in Ht; cbn in Ht. unfold R_dist in Ht.
+    - intros t [_ Ht]. unfold Rlimit.dist in Ht; simpl in Ht. unfold R_dist in Ht.
       assert (Ht' : lo < t < hi).
       { apply Rabs_def2 in Ht. pose proof (Rmin_l (y - lo) (hi - y)). pose proof (Rmin_r (y - lo) (hi - y)). lra. }
-      unfold dist; cbn. unfold R_dist. apply Rabs_def1; fold x.
+      unfold Rlimit.dist; simpl. unfold R_dist. apply Rabs_def1; fold x.
       + unfold lo, hi in Ht'. destruct up.
         * pose proof (IM t (f (x + eps)) ltac:(lra)) as Q. rewrite gf in Q. lra.
         * pose proof (IM (f (x + eps)) t ltac:(lra)) as Q. rewrite gf in Q. lra.
@@ -244,7 +266,7 @@ Section Inverse.
     assert (Hkd : Rabs k < delta).
     { unfold k. destruct (Req_dec (y + h) y) as [E|E]; [exfalso; lra|].
       apply (Hg (y + h)). split; [split; [exact I | intros E'; apply E; symmetry; exact E'] |].
-      unfold dist; cbn. unfold R_dist. replace (y + h - y) with h by ring. exact Hh. }
+      unfold Rlimit.dist; simpl. unfold R_dist. replace (y + h - y) with h by ring. exact Hh. }
     pose proof (Hdelta k Hk0 Hkd) as Q. fold d in Q.
     assert (Efk : f (x + k) - f x = h).
     { unfold k. replace (x + (g (y + h) - x)) with (g (y + h)) by ring. unfold x. rewrite !fg. ring. }
@@ -301,3 +323,339 @@ Proof.
     + apply filter_forall. intros [a b] x _. rewrite Rabs_left; [reflexivity | apply Sg].
     + apply (flow_density_integrates_to_one_decreasing P p S S'); assumption.
 Qed.
+
+(* ------------------------------------------------------------------------------------ *)
+(* Part C: the onto-R layers are diffeos whose reported log-det is ln |derivative|         *)
+(* ------------------------------------------------------------------------------------ *)
+(* a rank-0 layer that is a bijection of R onto R, C1 with derivative of constant sign, reporting
+   ln|derivative| as its forward log-det (C02) and satisfying the C01/C02 laws *)
+Definition sflow (l : layer R) : Prop :=
+  layer_ok l /\ (forall x, l_dom l x) /\ (forall y, l_cod l y) /\
+  exists f' up, diffeo (l_fwd l) f' up /\ forall x, l_ldf l x = ln (Rabs (f' x)).
+
+Lemma sflow_invert l : sflow l -> sflow (invert_layer l).
+Proof.
+  intros (Hok & Hd & Hc & f' & up & D & Hl). destruct Hok as [L1 L2].
+  split; [apply invert_layer_ok; split; assumption|]. split; [exact Hc|]. split; [exact Hd|].
+  exists (fun y => / f' (l_inv l y)), up. cbn [invert_layer l_fwd l_ldf]. split.
+  - apply (diffeo_inverse (l_fwd l) f'); [exact D | intros x; apply L1, Hd | intros y; apply L2, Hc].
+  - intros y. destruct (L2 y (Hc y)) as (_ & _ & E). rewrite E, Hl.
+    pose proof (diffeo_nonzero _ _ _ D (l_inv l y)) as NZ.
+    rewrite Rabs_Rinv by exact NZ. rewrite ln_Rinv by (apply Rabs_pos_lt, NZ). reflexivity.
+Qed.
+
+Lemma sflow_chain ls : List.Forall sflow ls -> sflow (chain_layer ls).
+Proof.
+  intros H.
+  assert (Hok : List.Forall layer_ok ls) by (eapply Forall_impl; [|exact H]; intros l Hl; apply Hl).
+  assert (Hdom : forall x, comp_dom ls x).
+  { clear Hok. induction H as [|l t Hl _ IH]; intros x; cbn [comp_dom]; [exact I|]. split; [apply Hl | apply IH]. }
+  assert (Hcod : forall rls, List.Forall sflow rls -> forall y, rcomp_cod rls y).
+  { induction 1 as [|l t Hl _ IH]; intros y; cbn [rcomp_cod]; [exact I|]. split; [apply Hl | apply IH]. }
+  split; [apply chain_layer_ok, Hok|]. split; [exact Hdom|].
+  split; [apply Hcod, Forall_rev, H|].
+  cbn [chain_layer l_fwd l_ldf].
+  assert (G : exists f' up, diffeo (comp_fwd ls) f' up /\ forall x, comp_ldf ls x = ln (Rabs (f' x))).
+  { clear Hok Hdom Hcod. induction H as [|l t Hl _ (g' & v & Dg & Lg)].
+    - exists (fun _ => 1), true. split; [exact diffeo_id|]. intros x. cbn [comp_ldf]. now rewrite Rabs_R1, ln_1.
+    - destruct Hl as (_ & _ & _ & f' & u & Df & Lf).
+      exists (fun x => g' (l_fwd l x) * f' x), (Bool.eqb u v). split.
+      + cbn [comp_fwd]. apply (diffeo_comp (l_fwd l) f' (comp_fwd t) g'); assumption.
+      + intros x. cbn [comp_ldf]. rewrite Lf, Lg, Rabs_mult.
+        pose proof (diffeo_nonzero _ _ _ Df x). pose proof (diffeo_nonzero _ _ _ Dg (l_fwd l x)).
+        rewrite ln_mult by (apply Rabs_pos_lt; assumption). ring. }
+  destruct G as (f' & up & D & L). exists f', up. split.
+  - apply (diffeo_ext (comp_fwd ls)); [intros x; now rewrite chain_fwd_ld_spec | exact D].
+  - intros x. rewrite chain_fwd_ld_spec. apply L.
+Qed.
+
+(* ---- leaves ---- *)
+Lemma lin_lim_pp a b : 0 < a -> filterlim (fun x => x * a + b) (Rbar_locally p_infty) (Rbar_locally p_infty).
+Proof.
+  intros Ha. apply lim_pp_intro. intros M. exists ((M - b) / a). intros x Hx.
+  apply (Rmult_lt_compat_r a) in Hx; [|exact Ha]. unfold Rdiv in Hx. rewrite Rmult_assoc, Rinv_l, Rmult_1_r in Hx; lra.
+Qed.
+Lemma lin_lim_mm a b : 0 < a -> filterlim (fun x => x * a + b) (Rbar_locally m_infty) (Rbar_locally m_infty).
+Proof.
+  intros Ha. apply lim_mm_intro. intros M. exists ((M - b) / a). intros x Hx.
+  apply (Rmult_lt_compat_r a) in Hx; [|exact Ha]. unfold Rdiv in Hx. rewrite Rmult_assoc, Rinv_l, Rmult_1_r in Hx; lra.
+Qed.
+Lemma lin_lim_pm a b : a < 0 -> filterlim (fun x => x * a + b) (Rbar_locally p_infty) (Rbar_locally m_infty).
+Proof.
+  intros Ha. apply lim_pm_intro. intros M. exists ((M - b) / a). intros x Hx.
+  assert (E : (M - b) / a * a = M - b) by (field; lra). nra.
+Qed.
+Lemma lin_lim_mp a b : a < 0 -> filterlim (fun x => x * a + b) (Rbar_locally m_infty) (Rbar_locally p_infty).
+Proof.
+  intros Ha. apply lim_mp_intro. intros M. exists ((M - b) / a). intros x Hx.
+  assert (E : (M - b) / a * a = M - b) by (field; lra). nra.
+Qed.
+
+Lemma diffeo_linear a b : a <> 0 -> diffeo (fun x => x * a + b) (fun _ => a) (if Rlt_dec 0 a then true else false).
+Proof.
+  intros Ha. destruct (Rlt_dec 0 a) as [H|H]; split; try (intros x; auto_derive; [exact I | ring]);
+    try (intros x; apply continuous_const); try (intros x; lra).
+  - apply lin_lim_mm, H. - apply lin_lim_pp, H.
+  - apply lin_lim_mp; lra. - apply lin_lim_pm; lra.
+Qed.
+
+Lemma sflow_affine loc s : s <> 0 -> sflow (affine_layer loc s).
+Proof.
+  intros Hs. split; [apply affine_layer_ok, Hs|]. split; [intros x; exact I|]. split; [intros y; exact I|].
+  exists (fun _ => s), (if Rlt_dec 0 s then true else false). split.
+  - apply (diffeo_ext (fun x => x * s + loc)); [intros x; reflexivity | apply diffeo_linear, Hs].
+  - intros x. apply affine_ld_spec.
+Qed.
+Lemma sflow_loc loc : sflow (loc_layer loc).
+Proof.
+  split; [apply loc_layer_ok|]. split; [intros x; exact I|]. split; [intros y; exact I|].
+  exists (fun _ => 1), true. split.
+  - apply (diffeo_ext (fun x => x * 1 + loc)).
+    + intros x. unfold loc_layer, loc_fwd; cbn. ring.
+    + replace true with (if Rlt_dec 0 1 then true else false) by (destruct (Rlt_dec 0 1); [reflexivity | lra]).
+      apply diffeo_linear. lra.
+  - intros x. cbn. now rewrite Rabs_R1, ln_1.
+Qed.
+Lemma sflow_scale s : s <> 0 -> sflow (scale_layer s).
+Proof.
+  intros Hs. split; [apply scale_layer_ok, Hs|]. split; [intros x; exact I|]. split; [intros y; exact I|].
+  exists (fun _ => s), (if Rlt_dec 0 s then true else false). split.
+  - apply (diffeo_ext (fun x => x * s + 0)); [intros x; unfold scale_layer, scale_fwd; cbn; ring | apply diffeo_linear, Hs].
+  - intros x. apply affine_ld_spec.
+Qed.
+
+(* LeakyTanh: derivative (C02) is continuous, positive; linear tails give the limits *)
+Lemma dth_continuous x : continuous dth x.
+Proof.
+  unfold dth. apply (continuous_minus (fun _ => 1) (fun x => th x * th x)); [apply continuous_const|].
+  assert (C : continuous th x) by (apply (ex_derive_continuous th); eexists; apply th_deriv).
+  apply (continuous_mult th th); exact C.
+Qed.
+Definition clampm (m x : R) : R := (Rabs (x + m) - Rabs (x - m)) / 2.
+Lemma leaky_d_clamp m x : 0 < m -> leaky_d m x = dth (clampm m x).
+Proof.
+  intros Hm. unfold leaky_d, clampm. rewrite leaky_grad_spec.
+  destruct (Rleb m (Rabs x)) eqn:E.
+  - apply Rleb_true in E. unfold Rabs in E. destruct (Rcase_abs x) as [Hx|Hx].
+    + rewrite (Rabs_left1 (x + m)), (Rabs_left1 (x - m)) by lra.
+      replace ((- (x + m) - - (x - m)) / 2) with (- m) by field. now rewrite dth_even.
+    + rewrite (Rabs_right (x + m)), (Rabs_right (x - m)) by lra. f_equal. field.
+  - apply Rleb_false in E. assert (- m < x < m) by (unfold Rabs in E; destruct (Rcase_abs x); lra).
+    rewrite (Rabs_right (x + m)), (Rabs_left (x - m)) by lra. f_equal. field.
+Qed.
+Lemma leaky_d_continuous m x : 0 < m -> continuous (leaky_d m) x.
+Proof.
+  intros Hm. apply continuous_ext with (f := fun x => dth (clampm m x)); [intros t; symmetry; apply leaky_d_clamp, Hm|].
+  apply continuous_comp; [|apply dth_continuous].
+  unfold clampm. apply (continuous_scal_l (fun x => Rabs (x + m) - Rabs (x - m)) (/ 2)).
+  apply (continuous_minus (fun x => Rabs (x + m)) (fun x => Rabs (x - m))).
+  - apply continuous_Rabs_comp. apply (continuous_plus (fun x => x) (fun _ => m)); [apply continuous_id | apply continuous_const].
+  - apply continuous_Rabs_comp. apply (continuous_minus (fun x => x) (fun _ => m)); [apply continuous_id | apply continuous_const].
+Qed.
+Lemma sflow_leaky m : 0 < m -> sflow (leaky_layer m).
+Proof.
+  intros Hm. pose proof (dth_pos m) as Hg.
+  split; [apply leaky_layer_ok, Hm|]. split; [intros x; exact I|]. split; [intros y; exact I|].
+  exists (leaky_d m), true. cbn [leaky_layer l_fwd l_ldf]. split.
+  - split.
+    + intros x. apply leaky_deriv, Hm.
+    + intros x. apply leaky_d_continuous, Hm.
+    + intros x. apply leaky_d_pos.
+    + apply lim_mm_intro. intros M.
+      exists (Rmin (- m) ((M + (th m - dth m * m)) / dth m)). intros x Hx.
+      pose proof (Rmin_l (- m) ((M + (th m - dth m * m)) / dth m)). pose proof (Rmin_r (- m) ((M + (th m - dth m * m)) / dth m)).
+      rewrite (leaky_fwd_lo m Hm) by lra.
+      assert (x * dth m < M + (th m - dth m * m)).
+      { apply Rlt_le_trans with ((M + (th m - dth m * m)) / dth m * dth m); [apply Rmult_lt_compat_r; lra | right; field; lra]. }
+      lra.
+    + apply lim_pp_intro. intros M.
+      exists (Rmax m ((M - (th m - dth m * m)) / dth m)). intros x Hx.
+      pose proof (Rmax_l m ((M - (th m - dth m * m)) / dth m)). pose proof (Rmax_r m ((M - (th m - dth m * m)) / dth m)).
+      rewrite (leaky_fwd_hi m Hm) by lra.
+      assert (M - (th m - dth m * m) < x * dth m).
+      { apply Rle_lt_trans with ((M - (th m - dth m * m)) / dth m * dth m); [right; field; lra | apply Rmult_lt_compat_r; lra]. }
+      lra.
+  - intros x. exact (leaky_ld_spec m x).
+Qed.
+
+(* ---- 1-D expressions over the onto-R leaves ---- *)
+Definition leaf_onto (l : leaf R) : Prop :=
+  match l with
+  | LAffine _ s => s <> 0 | LLoc _ => True | LScale s => s <> 0
+  | LLeaky m g ic => 0 < m /\ g = leaky_grad ROps m /\ ic = leaky_icpt ROps m
+  | _ => False            (* Exp / SoftPlus / Tanh are not onto R; the spline: see the end of the file *)
+  end.
+Fixpoint onto1 (b : bexpr R) : Prop :=
+  match b with
+  | BElem [l] => leaf_onto l
+  | BInvert b' => onto1 b'
+  | BChain bs => fold_right (fun b' P => onto1 b' /\ P) True bs
+  | _ => False
+  end.
+(* the scalar reading of a 1-D expression *)
+Fixpoint slayer (b : bexpr R) : layer R :=
+  match b with
+  | BElem [l] => leaf_layer l
+  | BInvert b' => invert_layer (slayer b')
+  | BChain bs => chain_layer (map slayer bs)
+  | _ => loc_layer 0
+  end.
+Lemma onto1_chain bs : onto1 (BChain bs) <-> List.Forall onto1 bs.
+Proof.
+  cbn [onto1]. induction bs as [|b t IH]; cbn [fold_right].
+  - split; intros; [constructor | exact I].
+  - split; intros H.
+    + constructor; [apply H | apply IH, H].
+    + inversion H; subst. split; [assumption | apply IH; assumption].
+Qed.
+
+Lemma sflow_leaf l : leaf_onto l -> sflow (leaf_layer l).
+Proof.
+  destruct l as [loc s|loc|s| | | |m g ic|xp yp dv lo hi]; cbn [leaf_onto]; intros H; try contradiction.
+  - exact (sflow_affine loc s H).
+  - exact (sflow_loc loc).
+  - exact (sflow_scale s H).
+  - destruct H as (Hm & -> & ->). exact (sflow_leaky m Hm).
+Qed.
+
+Theorem sflow_expr b : onto1 b -> sflow (slayer b).
+Proof.
+  induction b as [ls|lower m loc|p pinv| |b IH|bs IH] using bexpr_ind'; intros H; try contradiction.
+  - destruct ls as [|l [|l2 t]]; try contradiction. apply sflow_leaf, H.
+  - cbn [slayer]. apply sflow_invert, IH, H.
+  - cbn [slayer]. apply sflow_chain. apply onto1_chain in H. apply Forall_map.
+    induction IH as [|b t Hb _ IHt]; [constructor|]. inversion H; subst. constructor; auto.
+Qed.
+
+Lemma run_slayer b : onto1 b ->
+  (forall x, run_fwd_ld ROps b [x] = ([l_fwd (slayer b) x], l_ldf (slayer b) x)) /\
+  (forall y, run_inv_ld ROps b [y] = ([l_inv (slayer b) y], l_ldi (slayer b) y)).
+Proof.
+  induction b as [ls|lower m loc|p pinv| |b IH|bs IH] using bexpr_ind'; intros H; try contradiction.
+  - destruct ls as [|l [|l2 t]]; try contradiction.
+    split; intros v; cbn [run_fwd_ld run_inv_ld zipw slayer leaf_layer l_fwd l_inv l_ldf l_ldi];
+      rewrite sum_R_cons, sum_R_nil; f_equal; ring.
+  - destruct (IH H) as [A B]. split; intros v.
+    + rewrite run_fwd_ld_invert. apply B.
+    + rewrite run_inv_ld_invert. apply A.
+  - apply onto1_chain in H. split.
+    + intros x. rewrite run_fwd_ld_chain. cbn [slayer chain_layer l_fwd l_ldf]. rewrite chain_fwd_ld_spec. cbn [fst snd].
+      change (c ROps 0) with 0.
+      assert (G : forall x a, fold_left (fun s b' => let r := run_fwd_ld ROps b' (fst s) in (fst r, n_add ROps (snd s) (snd r))) bs ([x], a)
+                              = ([comp_fwd (map slayer bs) x], a + comp_ldf (map slayer bs) x)).
+      { clear x. induction IH as [|b t Hb _ IHt]; intros x a; cbn [fold_left map comp_fwd comp_ldf].
+        - f_equal. ring.
+        - inversion H; subst. cbv zeta. cbn [fst snd]. rewrite (proj1 (Hb H2)). cbn [fst snd].
+          rewrite IHt by assumption. f_equal. cbn [n_add ROps ROpsG]. ring. }
+      rewrite G. f_equal. ring.
+    + intros y. rewrite run_inv_ld_chain. cbn [slayer chain_layer l_inv l_ldi]. rewrite chain_inv_ld_spec. cbn [fst snd].
+      change (c ROps 0) with 0.
+      induction IH as [|b t Hb _ IHt]; [reflexivity|].
+      inversion H; subst. cbn [fold_right map rev]. cbv zeta. rewrite IHt by assumption. cbn [fst snd].
+      rewrite (proj2 (Hb H2)). cbn [fst snd].
+      rewrite rcomp_inv_app, rcomp_ldi_app. cbn [rcomp_inv rcomp_ldi]. f_equal. cbn [n_add ROps ROpsG]. ring.
+Qed.
+
+(* the base densities are continuous *)
+Lemma fam_density_continuous f z : continuous (fun z => exp (fam_logpdf ROps f z)) z.
+Proof.
+  destruct f; cbn [fam_logpdf].
+  - apply continuous_ext with (f := fun z => exp (- (z * z) / 2 - ln (sqrt (2 * PI)))).
+    + intros t. now rewrite std_normal_logpdf_spec.
+    + apply (ex_derive_continuous (fun z => exp (- (z * z) / 2 - ln (sqrt (2 * PI))))). auto_derive. exact I.
+  - apply continuous_ext with (f := fun z => exp (- (z + exp (- z)))).
+    + intros t. reflexivity.
+    + apply (ex_derive_continuous (fun z => exp (- (z + exp (- z))))). auto_derive. exact I.
+Qed.
+
+(* C04, one dimension: for every expression over Affine (any non-zero scale, negative included) / Loc / Scale /
+   LeakyTanh / Invert / Chain of any depth, exp(log_prob) of Transformed(base, b) integrates to one over R,
+   for a base (StandardNormal or the standard Gumbel) whose density has a primitive P with limits 0 and 1. *)
+Theorem flow_1d_integrates_to_one (f : fam) (P : R -> R) (b : bexpr R) :
+  (forall z, is_derive P z (exp (fam_logpdf ROps f z))) ->
+  filterlim P (Rbar_locally m_infty) (locally 0) -> filterlim P (Rbar_locally p_infty) (locally 1) ->
+  onto1 b ->
+  is_RInt_gen (fun x => exp (logp ROps (DTrans (DBase f) b) [x])) (Rbar_locally m_infty) (Rbar_locally p_infty) 1.
+Proof.
+  intros HP Lm Lp Hb.
+  destruct (sflow_invert _ (sflow_expr b Hb)) as (_ & _ & _ & S' & up & D & HL).
+  cbn [invert_layer l_fwd l_ldf] in D, HL.
+  apply (is_RInt_gen_ext (fun x => exp (fam_logpdf ROps f (l_inv (slayer b) x)) * Rabs (S' x))).
+  - apply filter_forall. intros [a0 b0] x _. cbn [logp]. rewrite (proj2 (run_slayer b Hb)). cbn [fst snd].
+    unfold base_logp. cbn [map]. rewrite sum_R_cons, sum_R_nil, HL. cbn [n_add ROps ROpsG].
+    rewrite exp_plus, Rplus_0_r, exp_ln; [reflexivity | apply Rabs_pos_lt, (diffeo_nonzero _ _ _ D)].
+  - apply (diffeo_density_integrates P (fun z => exp (fam_logpdf ROps f z)) (l_inv (slayer b)) S' up); auto.
+    intros z. apply fam_density_continuous.
+Qed.
+
+(* Tanh is NOT onto R: no preimage of 1 (nor of anything outside (-1, 1)), so it is no diffeo of R onto R and a
+   flow whose last activation is a plain Tanh loses the mass the base puts outside the image (why BNAF defaults to LeakyTanh) *)
+Theorem tanh_not_onto : ~ exists x, tanh_fwd ROps x = 1.
+Proof. intros [x H]. pose proof (th_bounds x). unfold tanh_fwd in H; cbn in H. lra. Qed.
+Theorem tanh_not_diffeo f' up : ~ diffeo (tanh_fwd ROps) f' up.
+Proof.
+  intros D. destruct up.
+  - destruct (lim_pp_elim _ (df_pinf _ _ _ D) 1) as [N HN]. pose proof (HN (N + 1) ltac:(lra)) as Q.
+    pose proof (th_bounds (N + 1)). unfold tanh_fwd in Q; cbn in Q. lra.
+  - destruct (lim_mp_elim _ (df_minf _ _ _ D) 1) as [N HN]. pose proof (HN (N - 1) ltac:(lra)) as Q.
+    pose proof (th_bounds (N - 1)). unfold tanh_fwd in Q; cbn in Q. lra.
+Qed.
+(* ... whereas LeakyTanh with the constructor's fields is (this is sflow_leaky) *)
+
+(* non-vacuity witness: a chain with a negative scale, a LeakyTanh and an inverted LeakyTanh *)
+Definition ex_onto : bexpr R :=
+  BChain [BElem [LAffine 1 (-2)]; BElem [LLeaky 3 (leaky_grad ROps 3) (leaky_icpt ROps 3)];
+          BInvert (BChain [BElem [LLeaky (/2) (leaky_grad ROps (/2)) (leaky_icpt ROps (/2))]; BElem [LScale 5]])].
+Lemma ex_onto_ok : onto1 ex_onto.
+Proof. unfold ex_onto. cbn. repeat split; lra. Qed.
+
+(* An instance with NO hypothesis left: the standard Gumbel base has the closed-form CDF exp(-exp(-z)). *)
+Definition gumbel_cdf (z : R) : R := exp (- exp (- z)).
+Lemma gumbel_cdf_deriv z : is_derive gumbel_cdf z (exp (fam_logpdf ROps FGumbel z)).
+Proof.
+  cbn [fam_logpdf]. rewrite std_gumbel_logpdf_spec. unfold gumbel_cdf.
+  auto_derive; [exact I|]. replace (- (z + exp (- z))) with (- exp (- z) + - z) by ring. rewrite exp_plus. ring.
+Qed.
+Lemma gumbel_cdf_minf : filterlim gumbel_cdf (Rbar_locally m_infty) (locally 0).
+Proof.
+  apply filterlim_locally. intros eps. exists (- / eps). intros z Hz.
+  change (Rabs (gumbel_cdf z - 0) < eps). unfold gumbel_cdf.
+  pose proof (cond_pos eps) as He. assert (Hi : 0 < / eps) by (apply Rinv_0_lt_compat, He).
+  set (t := exp (- z)). assert (Ht : / eps < t) by (unfold t; pose proof (exp_ineq1_le (- z)); lra).
+  rewrite Rminus_0_r, Rabs_right by (left; apply exp_pos).
+  assert (E : exp (- t) * exp t = 1) by (rewrite <- exp_plus; replace (- t + t) with 0 by ring; apply exp_0).
+  pose proof (exp_ineq1_le t). pose proof (exp_pos (- t)).
+  assert (eps * t > 1). { apply (Rmult_lt_compat_l eps) in Ht; [|exact He]. rewrite Rinv_r in Ht; lra. }
+  nra.
+Qed.
+Lemma gumbel_cdf_pinf : filterlim gumbel_cdf (Rbar_locally p_infty) (locally 1).
+Proof.
+  apply filterlim_locally. intros eps. exists (/ eps). intros z Hz.
+  change (Rabs (gumbel_cdf z - 1) < eps). unfold gumbel_cdf.
+  pose proof (cond_pos eps) as He. assert (Hi : 0 < / eps) by (apply Rinv_0_lt_compat, He).
+  set (t := exp (- z)). pose proof (exp_pos (- z)) as Htp. fold t in Htp.
+  assert (Ht : t < eps).
+  { assert (E : exp (- z) * exp z = 1) by (rewrite <- exp_plus; replace (- z + z) with 0 by ring; apply exp_0).
+    pose proof (exp_ineq1_le z). fold t in E.
+    assert (eps * z > 1). { apply (Rmult_lt_compat_l eps) in Hz; [|exact He]. rewrite Rinv_r in Hz; lra. }
+    nra. }
+  pose proof (exp_ineq1_le (- t)). assert (exp (- t) < 1) by (rewrite <- exp_0; apply exp_increasing; lra).
+  rewrite Rabs_left by lra. lra.
+Qed.
+Theorem gumbel_flow_1d_integrates_to_one (b : bexpr R) : onto1 b ->
+  is_RInt_gen (fun x => exp (logp ROps (DTrans (DBase FGumbel) b) [x])) (Rbar_locally m_infty) (Rbar_locally p_infty) 1.
+Proof.
+  intros Hb. apply (flow_1d_integrates_to_one FGumbel gumbel_cdf b);
+    [apply gumbel_cdf_deriv | apply gumbel_cdf_minf | apply gumbel_cdf_pinf | exact Hb].
+Qed.
+
+(* NOT PROVED (C04 is partial):
+   - d >= 2: the change-of-variables theorem in R^d (Coquelicot has no multivariate integration).  For d >= 2 the Coq
+     content is C01 (every layer a bijection of R^d onto R^d, total both ways) + C02 (the reported log-det).
+   - the rational-quadratic spline as a [diffeo]: it is C1 on R only when the two boundary derivatives equal 1; in general
+     it has two kinks (interval ends), so the statement needs the Chasles form over (-inf, lo], [lo, hi], [hi, +inf) and the
+     continuity of the derivative across knots.  RqsDerivP.v has the derivative at every point except the two ends and the
+     one-sided derivatives there; the closure lemma is not done.
+   - TriangularAffine / Permute / Flip in d = 1 are Affine / identity (not spelled out); Exp, SoftPlus, Tanh are not onto R.
+   - that the sampler's base draws follow the base law (jr.normal), and every statistical statement about samples.
+     (That the sample is the push-forward of the base draw through the same map the density uses is C03.) *)
